@@ -2,6 +2,7 @@ package main
 
 import (
 	"fmt"
+	"math"
 	"sort"
 	"strings"
 
@@ -126,7 +127,18 @@ func runC06(c *Case) {
 		return k
 	}
 	// twin returns a key of the pool in its other numeric representation (INTEGER n <-> REAL n.0)
+	hasMin := false
+	for _, k := range pool {
+		if k == interface{}(int64(math.MinInt64)) {
+			hasMin = true
+		}
+	}
 	twin := func() interface{} {
+		if hasMin && r.Intn(6) == 0 {
+			// the smallest INTEGER is exactly representable as a REAL
+			c.Count("twin_operands_of_min_int64", 1)
+			return float64(math.MinInt64)
+		}
 		for tries := 0; tries < 8; tries++ {
 			switch x := pool[r.Intn(len(pool))].(type) {
 			case int64:
